@@ -2,7 +2,7 @@
 LEVEL = "model_checking"
 RULE = ("stateless exploration of the real Reader pipeline under the vsched scheduler: consumer scripts (with/without header(), 0/1/2/all read() "
         "calls, close() or destructor) x fault plans (the j-th decompressor read throws for every j, close throws, object n corrupt, input "
-        "truncated at object/block boundaries and inside a block) x {opl, xml, pbf} x pool/queue sizes; every (script, fault) pair at "
+        "truncated at object/block boundaries and inside a block) x {opl, xml, pbf from a file, pbf through the read thread and input queue in 128-byte pieces and in one piece per blob} x pool/queue sizes; every (script, fault) pair at "
         "deviation bound 0, four scripts x every fault at bound <= 1 (quick) | <= 2 (thorough) under delay bounding. Oracle per execution: "
         "all threads finished (deadlock/livelock/hang/leaked thread detected by the scheduler), open-descriptor count unchanged, a consumer "
         "that reads to the end gets an exception iff a fault was injected, no data after an exception, no decompressor read after close(), "
